@@ -260,7 +260,7 @@ func c16Job(shard, nshards int, tier string) Job {
 				}
 			}
 		}
-		podSets := [][]string{{"web", "db", "cli2"}, {"web", "db", "cli2-off"}}
+		podSets := [][]string{{"web", "db", "cli2"}, {"web", "db", "cli2-off"}, {"web", "db", "bare"}}
 		if tier == "thorough" {
 			podSets = append(podSets, []string{"web", "db-plain", "cli2"}, []string{"web", "db", "cli2", "noip"})
 		}
